@@ -53,8 +53,8 @@ type Str struct {
 	b     []*Term
 	cat   []Str   // concatenation of byte strings and abstract strings (compared part-wise)
 	tok   *StrTok // abstract structured string (address printed from symbolic bytes)
-	opq   bool  // content unknown (formatted from symbolic operands); only flows into sinks
-	taint uint8 // bitmask of taint sources (C17: client address)
+	opq   bool    // content unknown (formatted from symbolic operands); only flows into sinks
+	taint uint8   // bitmask of taint sources (C17: client address)
 }
 
 func (s Str) Len() int {
